@@ -2394,12 +2394,12 @@ theorem xsentOf_eq (sid : Nat) (t : Tree) :
 theorem tigerBuild_succ (s : XSent) (fuel : Nat) (i : Str) (edge : Option Str) :
     tigerBuild s (fuel + 1) i edge =
       match s.terms.zipIdx.find? (fun x => x.1.id == i) with
-      | some x => some (.leaf (x.2 + 1) { label := x.1.pos.getD [], word := some (x.1.word.getD "None".toList), morph := x.1.morph, lemma := x.1.lemma, edge := some (edge.getD DEFAULT_EDGE) })
+      | some x => some (.leaf (x.2 + 1) { label := x.1.pos.getD [], word := some (x.1.word.getD "None".toList), morph := x.1.morph, lemma := x.1.lemma, edge := edge })
       | none =>
         match s.nts.find? (·.id == i) with
         | some nt =>
-          (nt.edges.mapM fun (e : Option Str × Str) => tigerBuild s fuel e.2 (some (e.1.getD "None".toList))).map fun ks =>
-            .node { label := nt.cat.getD [], morph := some DEFAULT_MORPH, edge := some (edge.getD DEFAULT_EDGE), lemma := some DEFAULT_LEMMA } ks
+          (nt.edges.mapM fun (e : Option Str × Str) => tigerBuild s fuel e.2 e.1).map fun ks =>
+            .node { label := nt.cat.getD [], morph := some DEFAULT_MORPH, edge := edge, lemma := some DEFAULT_LEMMA } ks
         | none => none := by
   rw [tigerBuild]
   have : (fun (x : XTerm × Nat) => match x with | (t, _) => t.id == i) = (fun x => x.1.id == i) := rfl
@@ -2455,7 +2455,7 @@ theorem tigerRead_setEdge (k : Tree) :
 theorem tbuild_ok (sid : Nat) (t : Tree) (hwf : WF t = true) (hlen : t.leafNums.length < 500) :
     ∀ (s : Tree) (p : Path) (fuel : Nat) (e : Option Str), get? t p = some s → height s < fuel →
       ∃ d, tigerBuild (xs sid t) fuel (natToStr (TigerRT.numOf t p)) e = some d ∧
-        sortKids d = sortKids ((tigerRead s).setFields fun f => { f with edge := some (e.getD DEFAULT_EDGE) }) := by
+        sortKids d = sortKids ((tigerRead s).setFields fun f => { f with edge := e }) := by
   intro s
   induction s using tree_ind with
   | hl n f =>
@@ -2481,7 +2481,7 @@ theorem tbuild_ok (sid : Nat) (t : Tree) (hwf : WF t = true) (hlen : t.leafNums.
         have hsome := nt_find t hwf hlen _ hps
         obtain ⟨ds, hds1, hds2⟩ := mapM_exists_map
           (fun i => ((some (edgeLab (node f ks).kids[i]?) : Option Str), natToStr (edgeRef t p i (node f ks).kids[i]?)))
-          (fun (x : Option Str × Str) => tigerBuild (xs sid t) fu x.2 (some (x.1.getD "None".toList)))
+          (fun (x : Option Str × Str) => tigerBuild (xs sid t) fu x.2 x.1)
           sortKids (fun i => (ks[i]?.map (fun k => sortKids (tigerRead k))).getD (leaf 0 {}))
           (childOrder (node f ks)) (by
             intro i hi
@@ -2495,12 +2495,12 @@ theorem tbuild_ok (sid : Nat) (t : Tree) (hwf : WF t = true) (hlen : t.leafNums.
               omega
             obtain ⟨d, hd1, hd2⟩ := ih ks[i] (List.getElem_mem hlt) (p ++ [i]) fu (some (edgeLab (some ks[i]))) hgi hh
             refine ⟨d, ?_, ?_⟩
-            · show tigerBuild _ fu (natToStr (edgeRef t p i ks[i]?)) (some ((some (edgeLab ks[i]?)).getD "None".toList)) = some d
+            · show tigerBuild _ fu (natToStr (edgeRef t p i ks[i]?)) (some (edgeLab ks[i]?)) = some d
               rw [hk, edgeRef_some t p i _ hgi]; exact hd1
             · rw [hd2, hk]
               show sortKids ((tigerRead ks[i]).setFields fun f => { f with edge := some (ks[i].fields.edge.getD DEFAULT_EDGE) }) = _
               rw [tigerRead_setEdge]; rfl)
-        refine ⟨node { label := f.label, morph := some DEFAULT_MORPH, edge := some (e.getD DEFAULT_EDGE), lemma := some DEFAULT_LEMMA } ds, ?_, ?_⟩
+        refine ⟨node { label := f.label, morph := some DEFAULT_MORPH, edge := e, lemma := some DEFAULT_LEMMA } ds, ?_, ?_⟩
         · rw [tigerBuild_succ, xs_term_find, hnone, xs_nt_find]
           have : ((consList t).map (ntEnt t)).find? (fun (x : NtEnt) => x.1 == natToStr (TigerRT.numOf t p)) = some (ntEnt t (p, node f ks)) := hsome
           rw [this]
@@ -2695,7 +2695,7 @@ theorem sortKids_fields (d : Tree) : (sortKids d).fields = d.fields := by
 theorem tigerSentence_xs (sid : Nat) (t : Tree) (hwf : WF t = true) (hlen : t.leafNums.length < 500) :
     ∃ r, tigerSentence {} (xs sid t) = .ok r ∧ sortKids r = sortKids (tigerReadTop t) := by
   have hne := WF_noEmpty t hwf
-  obtain ⟨d, hd1, hd2⟩ := tbuild_ok sid t hwf hlen t [] ((xIds t).length + 2) none rfl (by
+  obtain ⟨d, hd1, hd2⟩ := tbuild_ok sid t hwf hlen t [] ((xIds t).length + 2) (some DEFAULT_EDGE) rfl (by
     have := height_le_consList t hne
     have : (consList t).length ≤ (xIds t).length := by simp [xIds]
     omega)
@@ -2730,8 +2730,8 @@ theorem tigerSentence_xs (sid : Nat) (t : Tree) (hwf : WF t = true) (hlen : t.le
     simp only
     split
     · simp only [sortKids, sortKidsL, sortBy, insertBy]
-      rw [hd2]; rfl
-    · rw [hd2]; rfl
+      rw [hd2]
+    · rw [hd2]
 
 
 /-! #### well-formedness of what the TIGER reader delivers; several sentences -/
